@@ -80,7 +80,7 @@ Position::Position(std::string fen) : _zobrist_hash()
             _board[square] = piece;
             _by_color_bb[get_color(piece)] |= square_bb(square);
             _by_piece_kind_bb[get_piece_kind(piece)] |= square_bb(square);
-            VERIF_BOUND(_piece_count[piece], 10, "position.cpp:piece_list(fen)");
+            VERIF_BOUND(_piece_count[piece], std::size(_piece_position[piece]), "position.cpp:piece_list(fen)");
             _piece_position[piece][_piece_count[piece]++] = square;
 
             ++square;
@@ -374,7 +374,7 @@ void Position::add_piece(Piece piece, Square square)
     _board[square] = piece;
     _by_color_bb[get_color(piece)] |= square_bb(square);
     _by_piece_kind_bb[get_piece_kind(piece)] |= square_bb(square);
-    VERIF_BOUND(_piece_count[piece], 10, "position.cpp:piece_list");
+    VERIF_BOUND(_piece_count[piece], std::size(_piece_position[piece]), "position.cpp:piece_list");
     _piece_position[piece][_piece_count[piece]] = square;
     _piece_count[piece] += 1;
 
